@@ -11,7 +11,7 @@ from .common import EPS, viol
 ID = "C06"
 LEVEL = "exploration"
 BATCH = 16
-RULE = ("Systematic part: 2 callers, one read each, second caller starting at EVERY offset of {0, 2^-20, lat/2, lat, "
+RULE = ("(15 % of the seeded cases: the object was used from another event loop before.)  Systematic part: 2 callers, one read each, second caller starting at EVERY offset of {0, 2^-20, lat/2, lat, "
         "tau/2, tau-2^-20, tau, tau+2^-20} x ALL fault scripts of the tier's depth over {prompt, drop, delayed just "
         "inside the timeout, two fragments} x {udp,tcp} x keep-alive x retries {0,1,2}.  Seeded part: "
         "2-4 caller tasks on ONE protocol/inverter object, each issuing 1-3 reads of distinct registers with the same "
@@ -131,11 +131,15 @@ def random_case(rnd):
         else:
             faults.append({"k": "ok"})
     return {"transport": tr, "keep_alive": rnd.random() < 0.5, "timeout": tau, "retries": r, "count": count,
-            "level": level, "callers": callers, "faults": faults}
+            "level": level, "callers": callers, "faults": faults,
+            # the object has been used from another event loop before (a previous asyncio.run)
+            "prior_loop": rnd.random() < 0.15}
 
 
 def simplify(case):
     out = []
+    if case.get("prior_loop"):
+        out.append(dict(case, prior_loop=False))
     for ci, c in enumerate(case["callers"]):
         if c["start"]:
             cc = dict(case)
@@ -187,6 +191,17 @@ def simulate(case):
             t.set_name(f"caller{i}")
         await asyncio.gather(*tasks)
 
+    if case.get("prior_loop"):
+        async def warm():
+            world.net.begin_script([], {"k": "ok"})
+            if case["level"] == "inverter":
+                await C.do_call(world, "warm", lambda: inv.read_sensor("modbus-%d" % 0xFFF0))
+            else:
+                await C.do_execute(world, proto, {"op": "read", "reg": 0xFFF0, "count": count}, "warm")
+        status, _ = C.run_world(world, warm())
+        if status != "ok":
+            return world, dev, results, status
+        world.net.begin_script(case["faults"], {"k": "ok"})
     status, _ = C.run_world(world, main())
     return world, dev, results, status
 
